@@ -44,3 +44,44 @@ theorem lexToken_ok_calls (s s' : PState) (t : Option PTok) (h : lexToken s = .o
       · cases h; simp
 
 end PycModel
+
+namespace PycModel
+
+/-- `_fill` keeps the stream invariant: it never moves the read index and every lexer call it
+makes appends exactly one buffer entry (so no token is ever lexed twice, whatever `mark`/`reset`
+the parser performs) -/
+theorem fill_inv : ∀ (fuel n : Nat) (s s' : PState), StreamInv s → fill fuel n s = .ok () s' →
+    StreamInv s' ∧ s'.idx = s.idx ∧ s.buf.size ≤ s'.buf.size := by
+  intro fuel
+  induction fuel with
+  | zero => intro n s s' hi h; simp [fill, pure] at h; cases h; exact ⟨hi, rfl, Nat.le_refl _⟩
+  | succ f ih =>
+    intro n s s' hi h
+    unfold fill at h
+    split at h
+    · split at h
+      · cases h
+      · rename_i tok s1 hl
+        have hc := lexToken_ok_calls s s1 tok hl
+        have hi1 : StreamInv { s1 with buf := s1.buf.push tok } := by
+          constructor
+          · simp only [Array.size_push]; rw [hc.2.1, hc.2.2]; have := hi.idx_le; omega
+          · simp only [Array.size_push]; rw [hc.1, hc.2.1, hi.calls]
+        split at h
+        · cases h
+          refine ⟨hi1, by simp [hc.2.2], ?_⟩
+          simp only [Array.size_push]; rw [hc.2.1]; omega
+        · have := ih n _ s' hi1 h
+          refine ⟨this.1, by rw [this.2.1]; simp [hc.2.2], ?_⟩
+          have h3 := this.2.2
+          simp only [Array.size_push] at h3
+          rw [hc.2.1] at h3; omega
+    · cases h; exact ⟨hi, rfl, Nat.le_refl _⟩
+
+/-- `mark`/`reset` never touch the buffer or the lexer: speculation cannot cause re-lexing -/
+theorem reset_keeps_buffer (m : Nat) (s s' : PState) (h : reset m s = .ok () s') :
+    s'.buf = s.buf ∧ s'.lexCalls = s.lexCalls ∧ s'.raw = s.raw := by
+  simp [reset, modifyState] at h
+  cases h; simp
+
+end PycModel
